@@ -39,6 +39,9 @@ def run(ctx: Ctx) -> None:
     empty(ctx)
     call(ctx)
     fresh(ctx)
+    from .C07 import falsy_tests
+
+    falsy_tests(ctx, "R-C08-EMPTY")  # an empty payload (job without arguments) reaches the converter: nothing on the way takes it for 'missing'
 
 
 def kinds(ctx: Ctx, rule="R-C08-KINDS") -> None:
@@ -184,14 +187,31 @@ def sentinel_and_align(ctx: Ctx) -> None:
               node=f_node, instance="pydantic: field default")
     ok = dotted(f_key) == "p.name" and "parameters" in C.utext(p, f_iter, calls="all")
     ctx.check(ok, "R-C08-ALIGN", p, "pydantic model fields named after the parameters", "p.name", f"model fields are keyed by {unparse(f_key)}", instance="pydantic: field names")
-    vd = [k for c in ast.walk(cm[0]) for k in (c.keywords if isinstance(c, ast.Call) else []) if k.arg == "validate_default" and C.is_const(k.value, True)]
-    cfgs = [k for k in cm[0].keywords if k.arg == "__config__"]
-    for k in cfgs:
-        for d in C.expand_locals(p, k.value):
-            vd += [kk for c in ast.walk(d) if isinstance(c, ast.Call) for kk in c.keywords if kk.arg == "validate_default" and C.is_const(kk.value, True)]
+    def config_kws(e):
+        out = []
+        for d in C.expand_locals(p, e):
+            for c in ast.walk(d):
+                if isinstance(c, ast.Call):
+                    out += [kk for kk in c.keywords if kk.arg]
+                elif isinstance(c, ast.Dict):
+                    out += [ast.keyword(arg=k_.value, value=v_) for k_, v_ in zip(c.keys, c.values) if isinstance(k_, ast.Constant) and isinstance(k_.value, str)]
+        return out
+
+    cfg_kws = [kk for k in cm[0].keywords if k.arg == "__config__" for kk in config_kws(k.value)]
+    cfg_kws += [k for c in ast.walk(cm[0]) if isinstance(c, ast.Call) and c is not cm[0] for k in c.keywords if k.arg in ("validate_default",)]
+    vd = [k for k in cfg_kws if k.arg == "validate_default" and C.is_const(k.value, True)]
     ctx.check(not vd, "R-C08-SENTINEL", p, "declared defaults are passed through unvalidated", "no validate_default on the input model",
               "the pydantic input model validates defaults: a parameter absent from the payload whose declared default does not validate against its annotation "
               "(e.g. `x: int = None`) fails the execution instead of receiving its default, and the converters disagree", instance="pydantic: defaults untouched")
+    # the model must keep pydantic's default matching: unknown payload entries are ignored (as BasicConverter does without **kwargs), names are the parameter names, values are not rewritten
+    changing = {"extra": lambda v: not C.is_const(v, "ignore") and not C.is_const(v, None), "strict": lambda v: C.is_const(v, True), "alias_generator": lambda v: not C.is_const(v, None),
+                "str_strip_whitespace": lambda v: C.is_const(v, True), "str_to_lower": lambda v: C.is_const(v, True), "str_to_upper": lambda v: C.is_const(v, True),
+                "coerce_numbers_to_str": lambda v: C.is_const(v, True), "str_max_length": lambda v: not C.is_const(v, None), "populate_by_name": lambda v: False}
+    bad_cfg = [f"{k.arg}={unparse(k.value)}" for k in cfg_kws if k.arg in changing and changing[k.arg](k.value)]
+    base = [k for k in cm[0].keywords if k.arg == "__base__"]
+    ctx.check(not bad_cfg and not base, "R-C08-ALIGN", p, "input model keeps the default matching of payload entries to parameters", "no extra/strict/alias/str_* option, no foreign base model",
+              f"the pydantic input model is configured with {bad_cfg or ['__base__=' + unparse(b_.value) for b_ in base]}: payload entries are matched (or rejected / rewritten) differently from BasicConverter - e.g. "
+              "`extra='forbid'` fails every payload that carries an entry without a matching parameter instead of ignoring it", node=cm[0], instance="pydantic: model config")
     for q in (f"{PYD}.convert_inputs", f"{PYD1}.convert_inputs"):
         ci = ctx.func(q)
         ext = _positional_extraction(ctx, ci)
